@@ -561,3 +561,16 @@ Proof.
 Qed.
 
 End Strings.
+
+(** Every unsigned JSON number, followed by a rune that cannot continue a
+    number, is lexed as exactly one number token covering the whole literal. *)
+Theorem json_number_lexes u d rest :
+  nscan NNeg u = Some (u, []) -> lex_num_stop d = true ->
+  exists ty, lex_number (u ++ d :: rest) = LTok (mkTok ty u) [] (d :: rest) /\
+             (ty = TInt \/ ty = TFloat).
+Proof.
+  intros Hu Hd. destruct (unsigned_json_number_parts u Hu) as (ip & fp & ep & -> & Hi & Hf & He).
+  exists (if is_float_lit fp ep then TFloat else TInt). split.
+  - rewrite <- !app_assoc. now apply lex_number_json.
+  - destruct (is_float_lit fp ep); auto.
+Qed.
